@@ -19,7 +19,7 @@
    [run true] mirrors the code WITH fixes/C06-1.patch applied (event.c: the new head's [prev] is cleared
    when the old head leaves the queue); all theorems are about [run true].  [run false] is the code as
    found; it reaches UAF (Properties_C06.unfixed_code_refuted). *)
-Require Import LV.Common.Bytes.
+Require Import LV.Common.Bytes LV.Gen.Gen_sendqueue.
 Local Open Scope Z_scope.
 
 (* ---- owners: XMPP_QUEUE_USER = 0x2, XMPP_QUEUE_STROPHE = 0x1, XMPP_QUEUE_SM_STROPHE = 0x801.
@@ -90,9 +90,13 @@ Definition with_smh (h : Z) (n : node) : node :=
 Definition opt_eqb (a b : option nat) : bool :=
   match a, b with Some x, Some y => Nat.eqb x y | None, None => true | _, _ => false end.
 
-(* "<r xmlns='urn:xmpp:sm:3'/>" *)
-Definition req_ack : list Z :=
-  [60;114;32;120;109;108;110;115;61;39;117;114;110;58;120;109;112;112;58;115;109;58;51;39;47;62].
+(* the text of req_ack in _send_raw, as found in the source (tools/gens/gen_sendqueue.py) *)
+Definition req_ack : list Z := req_ack_text.
+
+(* the numeric owner values of common.h; Gen_sendqueue_ok checks that is_user / is_sm above are what
+   "owner == XMPP_QUEUE_USER", "owner & XMPP_QUEUE_USER" and "owner & XMPP_QUEUE_SM" compute on them *)
+Definition owner_code (o : owner) : Z :=
+  match o with OwUser => q_user | OwLib => q_strophe | OwSmLib => q_sm_strophe end.
 
 (* ------------------------------------------------------------------ _send_raw: the append *)
 Definition enqueue (st : state) (data : list Z) (ow : owner) (ud : option nat) : outcome (state * nat) :=
